@@ -113,6 +113,9 @@ def run_C02(ctx, rep):
 
 def run_C03(ctx, rep):
     gen_driver.run_gen(ctx, rep, ['G1G3', 'G3r.mono'], floors={'G1.lat': 20, 'G2.lat': 10, 'G4': 8, 'G3r': 100})
+    # monotone tests of the lattice value (`marked(x, true)`, `val(x, Top)`) are inside C03's premise: for those programs the
+    # value-keyed indices count as well
+    gen_driver.run_gen(ctx, rep, ['G3r'], only_tags=['lat_top'])
     lattice_rules.check_L10(ctx, rep)
 
 
@@ -144,6 +147,7 @@ def run_C01(ctx, rep):
     lib_rules.check_L13(ctx, rep)
     lib_rules.check_L4(ctx, rep)
     lib_rules.check_L7(ctx, rep)
+    macro_rules.check_M3(ctx, rep)
     return {'cov': {'disagreements_checked': n}}
 
 
@@ -159,6 +163,7 @@ def run_C08(ctx, rep):
     gen_driver.run_tv(ctx, rep, only_tags=['twin'], floors={'R1': 40})
     witness_rules.run_witnesses(ctx, rep, ctx.tier, kinds=('macro_self_rec', 'macro_mutual_rec', 'macro_head_rec'))
     macro_rules.check_M2(ctx, rep)
+    macro_rules.check_M3(ctx, rep)
 
 
 def run_C09(ctx, rep):
@@ -172,7 +177,7 @@ def run_C06(ctx, rep):
     names = ('t_perm_rules', 't_perm_decls', 't_perm_heads', 't_perm_body', 't_renamed', 'generic')
     gen_driver.run_twins(ctx, rep, lambda n, k: n.replace('_par', '') in names, floors={'T.L': 4, 'T.S': 4, 'T.C': 2})
     gen_driver.run_tv(ctx, rep, floors={'R3': 80})
-    gen_driver.run_gen(ctx, rep, ['G12', 'G3r'], floors={'G12': 40, 'G3r': 100, 'G13': 2})
+    gen_driver.run_gen(ctx, rep, ['G12', 'G3r'], floors={'G12': 40, 'G3r': 100, 'G13': 30})
     lib_rules.check_L13(ctx, rep)
 
 
